@@ -142,19 +142,92 @@ def _run(ctx):
         if r2.status == "pass":
             r2.site("t > 1 => Err at %s, before the ratio comparisons" % common.span_of_block_term(g, gg.b))
     # ---- G1 / N1 / N2 --------------------------------------------------------------------------------------------
-    if len(gts) != 2:
-        g1.fail("C15.G1:comparisons", g.path, g.span, "expected two ratio comparisons in the guard, found %d: unrecognised-idiom" % len(gts))
+    # Decided on the decision table of the guard, whatever its syntax (two `if`s, `a || b`, `ensure(!(a || b), Err)?`,
+    # a flag): with a tolerance given, the call is rejected exactly when one of the two ratio comparisons holds.
+    def shape(v):
+        if isinstance(v, tuple):
+            if v and v[0] == "call":
+                return ("call", v[3], tuple(shape(x) for x in v[4]))
+            return tuple(shape(x) for x in v)
+        return v
+
+    def ratio_literal(c):
+        """(key, a, b, truth, strict) for a control condition that is an order comparison other than the tolerance bound."""
+        cd = c["cond"]
+        if cd[0] != "cmp" or cd[1] not in ("gt", "lt", "ge", "le") or len(cd[2]) != 2 or len(c["allowed"]) != 1:
+            return None
+        a, b_ = cd[2]
+        kind = cd[1]
+        truth = c["allowed"][0]
+        if kind in ("lt", "le"):
+            a, b_ = b_, a
+            kind = {"lt": "gt", "le": "ge"}[kind]
+        # now: a > b (gt) or a >= b (ge)
+        ra, rb = set(ctx.roots(a)), set(ctx.roots(b_))
+        if (ra == {TOL} or rb == {TOL}) and any(len(x) == 1 and re.match(r"^C:bignumber::(\w+::)*Decimal256::one@", list(x)[0]) for x in (ra, rb)):
+            return None
+        return (shape((a, b_)), a, b_, truth, kind == "gt", c["sw"])
+
+    rej_exits = [(b, v) for (b, i, cls, v) in common.exit_sites(P, g) if cls == "err" and b in gbody.reachable_from(some_e[1]) and
+                 ((v[0] == "agg" and any(x[0] == "agg" and x[2] != ctx.N.ContractError + "::Std" and str(x[2]).startswith(ctx.N.ContractError) for x in common.walk(v))) or common.rejects_via_check_helper(P, v))]
+    lits = {}
+    rej_rows, ok_rows = [], []
+    for b, v in rej_exits:
+        for conj in (common.path_conjunctions(P, g, b) or common.control_conditions_dnf(P, g, b)):
+            row = {}
+            tol_bound = False
+            for c in conj:
+                rl = ratio_literal(c)
+                if rl is None:
+                    cd = c["cond"]
+                    if cd[0] == "cmp" and cd[1] in ("gt", "lt", "ge", "le") and over is not None and c["sw"] == over[0].b and c["allowed"] in ([True], [False]):
+                        # is this the tolerance > 1 rejection itself?
+                        pass
+                    continue
+                lits[rl[0]] = rl
+                row[rl[0]] = rl[3]
+            rej_rows.append((b, row))
+    for (b, i, cls, v) in oks:
+        if b not in gbody.reachable_from(some_e[1]):
+            continue
+        for conj in (common.path_conjunctions(P, g, b) or common.control_conditions_dnf(P, g, b)):
+            if not any(c["sw"] == some_e[0] and "Some" in [str(x) for x in c["allowed"]] for c in conj):
+                continue        # a path on which no tolerance was given
+            row = {}
+            for c in conj:
+                rl = ratio_literal(c)
+                if rl is not None:
+                    lits[rl[0]] = rl
+                    row[rl[0]] = rl[3]
+            ok_rows.append((b, row))
+    keys = sorted(lits, key=str)
+    if len(keys) != 2:
+        g1.fail("C15.G1:comparisons", g.path, g.span, "expected two ratio comparisons in the guard, found %d: unrecognised-idiom" % len(keys))
         return
-    errs = [b for b, i, st in common.agg_sites(g, lambda rv: rv["adt"] == ctx.N.ContractError and rv["variant"] != "Std")]
-    for (gg, kind, a, b_) in gts:
-        if kind != "gt":
-            g1.fail("C15.G1:non-strict", g.path, common.span_of_block_term(g, gg.b), "ratio comparison is `>=`: a provision exactly at the tolerance is rejected")
-        ok, why = common.fail_edge_only_errors(P, g, gg.edge(True))
-        if not ok or not any(e in gbody.reachable_from(gg.edge(True)[1]) for e in errs):
-            g1.fail("C15.G1:reject-edge", g.path, common.span_of_block_term(g, gg.b), "a failed ratio comparison does not reject with MaxSlippageAssertion: %s" % why)
-        for (b, i, cls, v) in oks:
-            if b in gbody.reachable_from(some_e[1], cut_edges=(gg.edge(False),)):
-                g1.fail("C15.G1:ok-bypass", g.path, common.span_of_block_term(g, b), "with a tolerance given, success is reachable without this ratio comparison passing")
+    for k_ in keys:
+        if not lits[k_][4]:
+            g1.fail("C15.G1:non-strict", g.path, common.span_of_block_term(g, lits[k_][5]), "ratio comparison is `>=`: a provision exactly at the tolerance is rejected")
+
+    def covers(row, asg):
+        return all(asg[k_] == t_v for k_, t_v in row.items())
+    # rows of the tolerance-bound rejection carry no ratio literal and are decided by R2; drop rows without any literal from the rejections
+    rej_lit_rows = [(b, row) for b, row in rej_rows if row]
+    for asg_v in ((True, True), (True, False), (False, True)):
+        asg = dict(zip(keys, asg_v))
+        if not any(covers(row, asg) for b, row in rej_lit_rows):
+            g1.fail("C15.G1:reject-edge", g.path, g.span, "a provision for which a ratio comparison holds (%s) is not rejected on every path" % (asg_v,))
+        for b, row in ok_rows:
+            if covers(row, asg):
+                g1.fail("C15.G1:ok-bypass", g.path, common.span_of_block_term(g, b), "with a tolerance given, success is reachable although a ratio comparison holds")
+                break
+    asg0 = dict(zip(keys, (False, False)))
+    if any(covers(row, asg0) for b, row in rej_lit_rows):
+        g1.fail("C15.G1:over-reject", g.path, g.span, "a provision is rejected although neither ratio comparison holds")
+
+    class _G:       # the translation below only needs a location per comparison
+        def __init__(self, b):
+            self.b = b
+    gts = [(_G(lits[k_][5]), "gt", lits[k_][1], lits[k_][2]) for k_ in keys]
     # translate both comparisons
     T = Translator(P)
     d = [T.var("d0"), T.var("d1")]
